@@ -30,6 +30,28 @@ instance : Fns Float where
   powN x n := Float.pow x n.toFloat
   big := Float.ofBits 0x7FEFFFFFFFFFFFFF
 
+/-- Python `int -> float` conversion in mixed arithmetic -/
+instance : NatCast Float := ⟨Float.ofNat⟩
+
+/-- `math`/`numpy` functions used by the benchmark problems. -/
+class MathFns (α : Type) where
+  sin : α → α
+  cos : α → α
+  exp : α → α
+  sqrt : α → α
+  /-- `math.pi` -/
+  pi : α
+  /-- libm `pow(x, y)` with a float exponent -/
+  pow : α → α → α
+
+instance : MathFns Float where
+  sin := Float.sin
+  cos := Float.cos
+  exp := Float.exp
+  sqrt := Float.sqrt
+  pi := Float.ofBits 0x400921FB54442D18
+  pow := Float.pow
+
 namespace Hex
 
 def digit (c : Char) : Option Nat :=
